@@ -82,8 +82,8 @@ def c_rop(r):
 
 
 def c_eop(a):
-    if a[0] == 'live_row':
-        return 'EL (LRow (%s) [%s])' % (c_any(a[1]), ';'.join(c_rop(r) for r in a[2]))
+    if a[0] in ('live_row', 'live_row_back'):
+        return 'EL (%s (%s) [%s])' % ('LRow' if a[0] == 'live_row' else 'LRowBack', c_any(a[1]), ';'.join(c_rop(r) for r in a[2]))
     if a[0].startswith('x_'):
         return 'E2 (%s)' % c_op2(a)
     return 'E1 (%s)' % c_op(a)
@@ -174,7 +174,7 @@ class Driver2(tl.Driver):
             elif k == 'insert_column_none': a = ('insert_column', op[1], 1, 0); timed(t.insert_column, op[1])
             elif k == 'append_column_none': a = ('append_column', 1, 0); timed(t.append_column)
             elif k == 'set_column_none': a = ('set_column', op[1], 1, 0); timed(t.set_column, op[1])
-            elif k == 'live_row':            # row = get_row(y, clone=False); Row-level calls on the handle; not written back
+            elif k in ('live_row', 'live_row_back'):   # row = get_row(y, clone=False); Row-level calls on the handle; written back with set_row or not
                 rops = []
                 for r in op[2]:
                     if r[0] in ('set', 'ins'):
@@ -189,6 +189,8 @@ class Driver2(tl.Driver):
                     elif r[0] == 'ins': timed(row.insert_cell, r[1], r[3])
                     elif r[0] == 'del': timed(row.delete_cell, r[1])
                     else: timed(row.append_cell, r[2])
+                if k == 'live_row_back':
+                    timed(t.set_row, op[1], row)
             else:
                 return self.apply(op)
         except tl.CallTimeout as e:
@@ -301,7 +303,7 @@ def g_area(rng, cols, rows):
 OPS_EXT = ['x_set_cell', 'x_set_cell', 'x_insert_cell', 'x_delete_cell', 'x_append_cell', 'x_set_row', 'x_insert_row', 'x_delete_row',
            'x_insert_column', 'x_delete_column', 'x_set_column', 'x_set_values', 'x_set_cells', 'x_set_column_cells', 'x_set_column_values',
            'append_row_none', 'set_row_none', 'insert_row_none', 'set_cell_none', 'insert_cell_none', 'append_cell_none',
-           'insert_column_none', 'append_column_none', 'set_column_none', 'live_row', 'live_row',
+           'insert_column_none', 'append_column_none', 'set_column_none', 'live_row', 'live_row', 'live_row_back',
            'set_cell', 'set_row', 'delete_row', 'insert_column', 'append_row']
 
 
@@ -310,7 +312,7 @@ def g_op2(rng, nodes, maxw, maxh, live=True):
     H = sum(r for r, _ in rows); W = sum(r for r, _ in cols)
     y = min(tl.pick_pos(rng, [r for r, _ in rows]), maxh); x = min(tl.pick_pos(rng, [r for r, _ in cols]), maxw)
     k = rng.choice(OPS_EXT)
-    if k == 'live_row' and not live:
+    if k in ('live_row', 'live_row_back') and not live:
         k = 'x_set_cell'
     if (H >= maxh or W >= maxw) and k in ('x_insert_row', 'x_insert_column', 'append_row_none', 'insert_row_none', 'insert_column_none',
                                           'append_column_none', 'append_row') and rng.random() < 0.8:
@@ -337,7 +339,7 @@ def g_op2(rng, nodes, maxw, maxh, live=True):
     if k in ('set_cell_none', 'insert_cell_none'): return [k, x, y]
     if k in ('insert_column_none', 'set_column_none'): return [k, x]
     if k == 'append_column_none': return [k]
-    if k == 'live_row':
+    if k in ('live_row', 'live_row_back'):
         yy = y
         cellreps = []
         acc = 0
